@@ -95,6 +95,21 @@ pub fn pool(seed: u64, scratch: &std::path::Path, write_files: bool) -> Vec<Prog
         let _ = std::fs::write(inc.join("common.inc"), ".equ COMMON = 0x33\n.macro common_mac\nldi @0, COMMON\n.endm\n#define COMMON_FLAG\n");
         let _ = std::fs::write(inc.join("dev.inc"), ".device ATmega16\n");
     }
+    // a second directory holding equally named files with other contents: a cache keyed by the name
+    // as written (instead of the resolved path) would hand one build the other build's file
+    let inc2 = scratch.join("other-inc");
+    if write_files {
+        let _ = std::fs::create_dir_all(&inc2);
+        let _ = std::fs::write(inc2.join("common.inc"), ".equ COMMON = 0x44\n.macro common_mac\nldi @0, COMMON\nnop\n.endm\n");
+        let _ = std::fs::write(inc2.join("dev.inc"), ".device ATmega8\n");
+    }
+    for (name, text) in [("file-includes-common-from-other-dir", ".include \"common.inc\"\ncommon_mac r17\n.dw COMMON\n"), ("file-includes-device-from-other-dir", ".include \"dev.inc\"\nldi r16, 1\n")] {
+        let p = scratch.join(format!("{}.asm", name));
+        if write_files {
+            let _ = std::fs::write(&p, text);
+        }
+        v.push(Prog { name: name.to_string(), kind: b'F', text: p.to_string_lossy().to_string(), dirs: vec![inc2.clone()] });
+    }
     for (name, text) in [
         ("file-includes-common", ".include \"common.inc\"\ncommon_mac r16\n.ifdef COMMON_FLAG\n.dw COMMON\n.endif\n"),
         ("file-uses-common-without-include", "common_mac r16\n"),
